@@ -528,7 +528,56 @@ def _wfmt(words):
 
 
 # =========================================================================== C12 tables
+def check_quaternion_explog(run, rule='R16'):
+    """Quaternion.exp / Quaternion.log against their closed forms, on every return path:
+         exp(s, v) = e^s (cos|v|, v/|v| sin|v|)          log(q) = (ln|q|, acos(s/|q|) unitvec(v))
+    A return through the NORMALISING constructor UnitQuaternion(s=, v=) rescales the value to norm 1: it equals the closed form only
+    where e^s = 1, i.e. only under a test that the scalar part of the OPERAND is zero (abs(self.s) < tol)."""
+    for key, want_s, want_v in (('quaternion:Quaternion.exp', 'exp(SELF.s) * cos(norm(SELF.v))', 'exp(SELF.s) * SELF.v / norm(SELF.v) * sin(norm(SELF.v))'),
+                                ('quaternion:Quaternion.log', 'log(SELF.norm())', 'acos(SELF.s / SELF.norm()) * unitvec(SELF.v)')):
+        f = run.prog.functions.get(key)
+        if f is None:
+            run.error('R16: %s not found in the current source' % key)
+            continue
+        cx = Ctx(run, key)
+        nm = Normaliser(rename=cx.rename)
+        ws, wv = Normaliser().poly(parse_expr(want_s)), Normaliser().poly(parse_expr(want_v))
+        rets = sl_eval(cx, with_conds=True)
+        if not rets:
+            run.error('R16: %s: no return evaluated' % key)
+        for (r, e, conds) in rets:
+            b = None
+            ctor = None
+            for cname_ in ('Quaternion', 'UnitQuaternion'):
+                b = matches('%s(s=_S, v=_V)' % cname_, e) or matches('%s(_S, _V)' % cname_, e)
+                if b is not None:
+                    ctor = cname_
+                    break
+            if b is None:
+                run.error('R16: %s: return %s is not Quaternion(s=.., v=..)' % (key, src(r.value, 50)))
+                continue
+            gs, gv = nm.poly(b['_S']), nm.poly(b['_V'])
+            what = key.split('.')[-1]
+            if gs == ws and gv == wv:
+                run.holds(rule, key, '%s closed form (%s)' % (what, ctor), 'scalar and vector part agree with the definition', f=f, node=r)
+            else:
+                run.violation(rule, key, '%s closed form (%s)' % (what, ctor), 'the result is (%s, %s); the definition is (%s, %s)' % (gs, gv, ws, wv), f=f, node=r)
+            if ctor == 'UnitQuaternion':
+                s_ = f.selfname
+                guarded = any(pol and (matches('abs(%s.s) < _T' % s_, c) is not None or matches('%s.s == 0' % s_, c) is not None) for (c, pol) in conds)
+                construct = '%s: normalising return' % what
+                if guarded:
+                    run.holds(rule, key, construct, 'UnitQuaternion(..) is returned only where the scalar part of the operand is (numerically) zero', f=f, node=r)
+                else:
+                    tests = [src(c, 30) for (c, pol) in conds if pol]
+                    run.violation(rule, key, construct, 'the value is returned through the normalising constructor UnitQuaternion(s=, v=), which rescales it '
+                                  'to norm 1 and so drops the factor e^s, but the path is not guarded by a test that the scalar part of the OPERAND '
+                                  '(%s.s) is zero%s: for a quaternion with s != 0 whose result happens to pass the test, exp(q) is wrong and '
+                                  'log(exp(q)) != q' % (s_, (' (tested: %s)' % ', '.join(tests)) if tests else ''), f=f, node=r)
+
+
 def tables_c12(run):
+    check_quaternion_explog(run)
     Q = ['P0[0]', 'P0[1]', 'P0[2]', 'P0[3]']
     s, x, y, z = Q
     check_matrix_fn(run, 'base/quaternions:matrix', 'matrix(q)',
